@@ -46,7 +46,8 @@ PRESCALED = {"Tanh": (-1.0, 1.0), "Softsign": (-1.0, 1.0), "Sigmoid": (0.0, 1.0)
 BOUNDS = [([-1.0, 2.0, -8.0], [0.5, 4.0, -6.0]), ([-1.0, -1.0], [1.0, 1.0]), ([0.0, -4.0], [2.0, -0.5]),
           ([-0.25], [3.0]), ([-2.0, 0.0, 1.0, -16.0], [-1.0, 8.0, 1.5, 16.0])]
 #: IPPO / MADDPG / MATD3 assert low[0] <= 0 < high[0] in their constructors
-BOUNDS_IPPO = [([-1.0, 2.0, -8.0], [0.5, 4.0, -6.0]), ([0.0, -4.0], [2.0, -0.5]), ([-0.25], [3.0])]
+BOUNDS_IPPO = [([-1.0, 2.0, -8.0], [0.5, 4.0, -6.0]), ([0.0, -4.0], [2.0, -0.5]), ([-0.25], [3.0]),
+               ([-0.5, 0.0], [0.25, 1.0])]         # 1 and 3 have the same dimension and different bounds
 MA_BOUND_PAIRS = [(0, 2), (2, 0), (1, 3), (3, 0)]      # indices into BOUNDS accepted by the multi-agent constructors
 TOL = 1e-5
 
@@ -603,6 +604,21 @@ def rawmacont_agent(algo: str, bi: int, bj: int):
     return cached((algo, "rawmacont", bi, bj), make)
 
 
+def reorder(d, order):
+    """the same dict built in another key order (an environment whose agent list is ordered differently)"""
+    if not order or d is None:
+        return d
+    return {k: d[k] for k in list(order) + [k for k in d if k not in order] if k in d}
+
+
+def rand_order(rng: random.Random, share: float = 0.6):
+    """None (agent_ids order) or a permutation of the three agent ids different from agent_ids order"""
+    if rng.random() >= share:
+        return None
+    ids = ["agent_0", "agent_1", "other_0"]
+    return rng.choice([p for p in map(list, itertools.permutations(ids)) if p != ids])
+
+
 def _ma_infos(agent, rows, single, key_mask, key_env, discrete, extra_key=False):
     """build the `infos` dict the environment would return"""
     infos = {}
@@ -642,8 +658,9 @@ def run_madisc(case):
     dims = {aid: (A1 if aid.startswith("other") else A0) for aid in ag.agent_ids}
     for aid, actor in zip(ag.agent_ids, ag.actors):
         actor.head_net.table = torch.tensor([r[aid]["p"] for r in rows], dtype=torch.float32)
-    infos = _ma_infos(ag, rows, single, "action_mask", "env_defined_actions", True, bool(case.get("extra_key")))
-    obs = sample_obs(ag, algo, B, single, case.get("seed", 0))
+    infos = reorder(_ma_infos(ag, rows, single, "action_mask", "env_defined_actions", True, bool(case.get("extra_key"))),
+                    case.get("order"))
+    obs = reorder(sample_obs(ag, algo, B, single, case.get("seed", 0)), case.get("obs_order"))
     inject = {i: case["noise"][aid] for i, aid in enumerate(ag.agent_ids)} if case.get("noise") else {}
     seed_all(case.get("seed", 0))
     with NoiseTap(ag, inject) as tap:
@@ -651,6 +668,8 @@ def run_madisc(case):
     problems, tags, impl, ops = [], [f"madisc-{algo}"], [], []
     nm = sum(1 for aid in ag.agent_ids if rows[0][aid].get("m") is not None)
     tags.append("masks-all" if nm == 3 else "masks-none" if nm == 0 else "masks-partial")
+    if case.get("order"):
+        tags.append("infos-reordered")
     noise = {aid: (list(tap.rec[i]) if i in tap.rec else [0.0] * dims[aid]) for i, aid in enumerate(ag.agent_ids)}
     resolved = dict(case, noise={aid: [float(x) for x in noise[aid]] for aid in ag.agent_ids}) if tr else case
     if disc is None:
@@ -695,8 +714,8 @@ def run_macont(case):
     bnd = {aid: BOUNDS[bj if aid.startswith("other") else bi] for aid in ag.agent_ids}
     for aid, actor in zip(ag.agent_ids, ag.actors):
         (actor if raw else actor.head_net).table = torch.tensor([r[aid]["h"] for r in rows], dtype=torch.float32)
-    infos = _ma_infos(ag, rows, single, "action_mask", "env_defined_actions", False)
-    obs = sample_obs(ag, algo, B, single, case.get("seed", 0))
+    infos = reorder(_ma_infos(ag, rows, single, "action_mask", "env_defined_actions", False), case.get("order"))
+    obs = reorder(sample_obs(ag, algo, B, single, case.get("seed", 0)), case.get("obs_order"))
     inject = {i: case["noise"][aid] for i, aid in enumerate(ag.agent_ids)} if case.get("noise") else {}
     seed_all(case.get("seed", 0))
     with NoiseTap(ag, inject) as tap:
@@ -761,7 +780,24 @@ def gen_ma_multi(rng: random.Random, tier: str):
                          for aid, A in (("agent_0", A0), ("agent_1", A0), ("other_0", A1))}
             cases.append({"suite": "madisc", "algo": algo, "A": [A0, A1], "rows": rows, "training": tr,
                           "single": single, "noise": noise, "seed": rng.randrange(1 << 30),
-                          "extra_key": rng.random() < 0.5})
+                          "extra_key": rng.random() < 0.5, "order": rand_order(rng), "obs_order": rand_order(rng, 0.3)})
+        # every agent reports its own, different mask; the infos dict is built in an order other than agent_ids
+        for tr in (False, True):
+            for order in (["other_0", "agent_1", "agent_0"], ["agent_1", "other_0", "agent_0"], ["agent_1", "agent_0", "other_0"]):
+                single = rng.random() < 0.5
+                rows = []
+                for _ in range(1 if single else 2):
+                    row = {}
+                    for k, (aid, A) in enumerate((("agent_0", 4), ("agent_1", 4), ("other_0", 4))):
+                        best = rng.randrange(A)
+                        p = [1.0 if j == best else rng.choice([0.0, 0.125, 0.25]) for j in range(A)]
+                        allowed = (best + 1 + k) % A                       # one allowed action, different per agent
+                        row[aid] = {"p": p, "m": [1 if j == allowed else 0 for j in range(A)], "env": None}
+                    rows.append(row)
+                noise = {a: [0.0] * 4 for a in ("agent_0", "agent_1", "other_0")} if tr else None
+                cases.append({"suite": "madisc", "algo": algo, "A": [4, 4], "rows": rows, "training": tr, "single": single,
+                              "noise": noise, "seed": rng.randrange(1 << 30), "order": order,
+                              "obs_order": rand_order(rng, 0.3)})
         # partial masks where the masked agents' preferred action is a masked one, evaluation and training mode
         for tr in (False, True):
             for who in (["agent_0"], ["agent_1", "other_0"], ["other_0"], ["agent_0", "agent_1"]):
@@ -781,7 +817,8 @@ def gen_ma_multi(rng: random.Random, tier: str):
                     rows.append(row)
                 noise = {"agent_0": [0.0] * 4, "agent_1": [0.0, 0.125, 0.0, -0.125], "other_0": [0.0] * 3} if tr else None
                 cases.append({"suite": "madisc", "algo": algo, "A": [4, 3], "rows": rows, "training": tr, "single": single,
-                              "noise": noise, "seed": rng.randrange(1 << 30), "extra_key": rng.random() < 0.5})
+                              "noise": noise, "seed": rng.randrange(1 << 30), "extra_key": rng.random() < 0.5,
+                              "order": rand_order(rng, 0.5)})
         for it in range(n):
             bi, bj = rng.choice(MA_BOUND_PAIRS) if tier != "quick" else rng.choice([(0, 2), (2, 0)])
             act = "Tanh" if (tier == "quick" or it % 3) else rng.choice(["Sigmoid", "Softsign"])
@@ -811,7 +848,8 @@ def gen_ma_multi(rng: random.Random, tier: str):
                                for _ in BOUNDS[bj if aid.startswith("other") else bi][0]]
                          for aid in ("agent_0", "agent_1", "other_0")}
             cases.append({"suite": "macont", "algo": algo, "bounds": [bi, bj], "act": act, "rows": rows,
-                          "training": tr, "single": single, "noise": noise, "seed": rng.randrange(1 << 30)})
+                          "training": tr, "single": single, "noise": noise, "seed": rng.randrange(1 << 30),
+                          "order": rand_order(rng, 0.5), "obs_order": rand_order(rng, 0.3)})
         # actors stubbed as a whole with outputs outside the bounds (what user-supplied actor networks may return):
         # only get_action's own clamp keeps the action legal, in training and in evaluation mode
         # (a failure in evaluation mode is the analysed defect C14-ma-eval-raw-actor-output)
@@ -1021,15 +1059,19 @@ def run_pgbox(case):
     lo, hi = table[bi]
     d, B = len(lo), len(rows)
     single = bool(case.get("single")) and B == 1
+    bj = case.get("bounds_other", bi)            # IPPO: the group `other` may live in a different Box
+    lo_o, hi_o = table[bj]
     if algo == "IPPO":
-        ag = pg_agent(algo, ("box", bi), lambda: [box(lo, hi)] * 3, squash)
+        ag = pg_agent(algo, ("box", bi, bj), lambda: [box(lo, hi), box(lo, hi), box(lo_o, hi_o)], squash)
         ag.actors[0].head_net.wrapped.table = torch.tensor([r["mu"] for r in rows] * 2, dtype=torch.float32)
-        ag.actors[1].head_net.wrapped.table = torch.tensor([r["mu"] for r in rows], dtype=torch.float32)
+        ag.actors[1].head_net.wrapped.table = torch.tensor([r.get("mu_o", r["mu"]) for r in rows], dtype=torch.float32)
     else:
         ag = pg_agent(algo, ("box", bi), lambda: box(lo, hi), squash)
         ag.actor.head_net.wrapped.table = torch.tensor([r["mu"] for r in rows], dtype=torch.float32)
     obs = sample_obs(ag, algo, B, single, case.get("seed", 0))
     problems, tags, impl, ops = [], [f"pgbox-{algo}", "squash" if squash else "clip"], [], []
+    if algo == "IPPO" and bj != bi:
+        tags.append("bounds-per-group")
     ag.set_training_mode(False)
     seed_all(case.get("seed", 0))
     try:
@@ -1049,10 +1091,12 @@ def run_pgbox(case):
         return impl, ops, problems, ["draws-unobserved"], case
     for (gname, members), smp in zip(groups, samples):
         got = []
+        glo, ghi = (lo_o, hi_o) if gname == "other" else (lo, hi)
+        gd = len(glo)
         for aid in members:
             o = np.asarray(out[aid] if aid is not None else out)
-            if o.shape != (B, d):
-                problems.append(f"{algo} {aid or ''}: batch of {B} -> action shape {o.shape}, expected {(B, d)}")
+            if o.shape != (B, gd):
+                problems.append(f"{algo} {aid or ''}: batch of {B} -> action shape {o.shape}, expected {(B, gd)}")
                 continue
             if not isinstance(o, np.ndarray):
                 problems.append(f"{algo}: action is a {type(o).__name__}, not a numpy array")
@@ -1060,13 +1104,13 @@ def run_pgbox(case):
                 space = ag.action_space[aid] if aid is not None else ag.action_space
                 if not legal(space, o[b]):
                     problems.append(f"{algo} {aid or ''} row {b}: evaluation-mode action {o[b].tolist()} not in "
-                                    f"Box(low={lo}, high={hi})")
+                                    f"its own Box(low={glo}, high={ghi})")
                 got.append(frs(o[b]))
-        if smp.shape != (B * len(members), d):
+        if smp.shape != (B * len(members), gd):
             return impl, ops, problems, ["draws-unobserved"], case
         # rows of one homogeneous group are compared as a multiset (which agent gets which row is C15's business)
         impl.append("|".join(sorted(got, key=parse_rats)))
-        ops.append([f"action pgeval {d} {int(squash)} {frs(lo)} {frs(hi)} {frs(s)}" for s in smp])
+        ops.append([f"action pgeval {gd} {int(squash)} {frs(glo)} {frs(ghi)} {frs(s)}" for s in smp])
     return impl, ops, problems, tags, case
 
 
@@ -1092,18 +1136,25 @@ def run_pgmask(case):
     obs = sample_obs(ag, algo, B, single, case.get("seed", 0))
     masks = np.array([r["m"] for r in rows], dtype=np.int64)
     problems, tags, impl, ops = [], [f"pgmask-{algo}-{kind}"], [], []
-    mgroups = list(case.get("mask_groups", ["agent", "other"]))     # IPPO: the groups whose agents report a mask
+    mgroups = [g for g in ("agent", "other") if g in case.get("mask_groups", ["agent", "other"])]   # groups reporting masks
     if algo == "IPPO" and len(mgroups) == 1:
         tags.append("masks-partial")
+    if algo == "IPPO" and case.get("order"):
+        tags.append("infos-reordered")
+
+    def mrow(aid, r):           # agent_1 may have a mask of its own, different from agent_0's
+        return r["m1"] if (aid == "agent_1" and r.get("m1") is not None) else r["m"]
     seed_all(case.get("seed", 0))
     with MethodTap(EvolvableDistribution, "apply_mask") as tap:
         outs = []
         for rep in range(case.get("samples", 3)):
             if algo == "IPPO":
                 # IPPO wants all-or-none masks inside a homogeneous group; groups may differ
-                infos = {aid: ({"action_mask": (masks[0] if single else masks)} if aid.rsplit("_", 1)[0] in mgroups else {})
-                         for aid in ag.agent_ids}
-                outs.append(ag.get_action(obs, infos=infos)[0])
+                infos = {}
+                for aid in ag.agent_ids:
+                    am = np.array([mrow(aid, r) for r in rows], dtype=np.int64)
+                    infos[aid] = {"action_mask": (am[0] if single else am)} if aid.rsplit("_", 1)[0] in mgroups else {}
+                outs.append(ag.get_action(reorder(obs, case.get("obs_order")), infos=reorder(infos, case.get("order")))[0])
             else:
                 outs.append(ag.get_action(obs, action_mask=masks[0] if single else masks)[0])
     if not tap.rec:
@@ -1117,10 +1168,19 @@ def run_pgmask(case):
         reps = ml.shape[0] // B
         if ml.shape != (B * reps, W):
             return impl, ops, problems, ["draws-unobserved"], case
+        members = [None] if algo != "IPPO" else (["agent_0", "agent_1"] if mgroups[ci] == "agent" else ["other_0"])
+        if reps != len(members):
+            return impl, ops, problems, ["draws-unobserved"], case
         for k in range(reps):
             for b, r in enumerate(rows):
+                own = mrow(members[k], r)
                 impl.append(frs(ml[k * B + b]))
-                ops.append(f"action pgmask {W} {frs(r['l'])} {bits(r['m'])}")
+                ops.append(f"action pgmask {W} {frs(r['l'])} {bits(own)}")
+                # oracle: exactly the logits this agent's own mask forbids are pushed down
+                pushed = [int(ml[k * B + b][j] != np.float32(r["l"][j])) for j in range(W)]
+                if any(pushed[j] and own[j] for j in range(W)) or any((not own[j]) and not pushed[j] and r["l"][j] > -1e8 for j in range(W)):
+                    problems.append(f"{algo} {members[k] or ''} row {b}: logits masked at {[j for j in range(W) if pushed[j]]} but "
+                                    f"the agent's own mask is {own}")
     # oracle on the sampled actions
     for out in outs:
         for aid in (ag.agent_ids if algo == "IPPO" else [None]):
@@ -1131,7 +1191,7 @@ def run_pgmask(case):
                 continue
             has_mask = aid is None or aid.rsplit("_", 1)[0] in mgroups
             for b, r in enumerate(rows):
-                m = r["m"]
+                m = mrow(aid, r)
                 if not legal(space, o[b]):
                     problems.append(f"{algo} {aid or ''} row {b}: {o[b].tolist()} not in {space}")
                     continue
@@ -1165,10 +1225,21 @@ def gen_pg(rng: random.Random, tier: str):
             lo, hi = table[bi]
             single = rng.random() < 0.3
             B = 1 if single else rng.randint(2, 4)
-            rows = [{"mu": [rng.choice([-BIG, -16.0, lo[j], (lo[j] + hi[j]) / 2, hi[j], 16.0, BIG]) for j in range(len(lo))]}
-                    for _ in range(B)]
-            cases.append({"suite": "pgbox", "algo": algo, "bounds": bi, "rows": rows, "single": single,
-                          "seed": rng.randrange(1 << 30)})
+            pick = lambda l, h: [rng.choice([-BIG, -16.0, l[j], (l[j] + h[j]) / 2, h[j], 16.0, BIG]) for j in range(len(l))]
+            rows = [{"mu": pick(lo, hi)} for _ in range(B)]
+            c = {"suite": "pgbox", "algo": algo, "bounds": bi, "rows": rows, "single": single, "seed": rng.randrange(1 << 30)}
+            if algo == "IPPO" and it % 3 != 2:
+                # the two-member group `agent` and the group `other` act in different Boxes
+                bj = rng.choice([k for k in range(len(table)) if k != bi])
+                if it % 3 == 0:                      # same dimension, different bounds
+                    bi, bj = rng.choice([(1, 3), (3, 1)])
+                    c["bounds"] = bi
+                    for r in rows:
+                        r["mu"] = pick(*table[bi])
+                c["bounds_other"] = bj
+                for r in rows:
+                    r["mu_o"] = pick(*table[bj])
+            cases.append(c)
         for it in range(n):
             kind = ["discrete", "multidiscrete", "multibinary"][it % 3]
             nn_ = {"discrete": rng.choice([2, 3, 5]), "multidiscrete": rng.choice([[2, 3], [3, 2, 2]]),
@@ -1189,6 +1260,19 @@ def gen_pg(rng: random.Random, tier: str):
                  "seed": rng.randrange(1 << 30)}
             if algo == "IPPO":
                 c["mask_groups"] = [["agent", "other"], ["agent"], ["other"]][it % 3 if it >= 3 else 0]
+                # agent_1 reports a mask different from agent_0's; the dicts come in another order than agent_ids
+                for r in rows:
+                    m1 = [1 - x for x in r["m"]]
+                    if kind == "multidiscrete":
+                        off = 0
+                        for k in nn_:
+                            if not any(m1[off:off + k]):
+                                m1[off] = 1
+                            off += k
+                    elif kind == "discrete" and not any(m1):
+                        m1 = list(r["m"])
+                    r["m1"] = m1
+                c["order"], c["obs_order"] = rand_order(rng, 0.7), rand_order(rng, 0.3)
             cases.append(c)
     # PPO with a squashing actor, evaluation mode (scale_action)
     for it in range(2 if tier == "quick" else 20):
@@ -1281,6 +1365,12 @@ FINDINGS = {
     "C14-ma-eval-raw-actor-output": "MADDPG / MATD3.get_action clamp continuous actions only in training mode: with "
                                     "user-supplied actor networks (output not rescaled onto the Box) the evaluation-mode "
                                     "action is the raw actor output, outside an asymmetric Box",
+    "C14-env-defined-infos-order": "MultiAgentRLAlgorithm.extract_agent_masks sizes the NaN placeholder of an agent without an "
+                                   "env-defined action with action_dims[position in infos]: when infos lists the agents in "
+                                   "another order than agent_ids and action dimensions differ, get_action raises",
+    "C14-ippo-mask-infos-order": "IPPO.extract_action_masks stacks the masks of a homogeneous group in the iteration order of "
+                                 "`infos`, while the group's observations are batched in agent_ids order: when infos lists "
+                                 "agent_1 before agent_0 each agent is masked with the other's mask",
     "C14-cqn-explore-batch-from-len": "CQN.get_action sizes the exploring batch with len(obs): for Dict / Tuple observations "
                                       "that is the number of members, not the batch size",
 }
@@ -1297,6 +1387,12 @@ def finding_id(case, problem: str):
         return "C14-ippo-numpy-mask-valueerror"
     if algo == "CQN" and "-> action shape" in problem and case.get("family") in ("dict", "tuple") and case.get("eps", 0) > 0:
         return "C14-cqn-explore-batch-from-len"
+    if case.get("order") and case.get("env_defined") and case.get("kind") == "box" and case.get("single") \
+            and re.search(r"raised (IndexError|ValueError)", problem) and algo in ("MADDPG", "MATD3", "IPPO"):
+        return "C14-env-defined-infos-order"
+    if algo == "IPPO" and case.get("order") and case["order"].index("agent_1") < case["order"].index("agent_0") \
+            and ("mask" in problem):
+        return "C14-ippo-mask-infos-order"
     if algo in ("MADDPG", "MATD3") and not case.get("training") and (case.get("raw") or case.get("custom")) \
             and "not in Box" in problem:
         return "C14-ma-eval-raw-actor-output"
@@ -1379,7 +1475,8 @@ def sweep_spaces(algo: str, kind: str, rng: random.Random):
     ag = _agents()
     if kind == "box":
         table = BOUNDS_IPPO if ag.is_multi_agent(algo) else BOUNDS
-        i, j = rng.randrange(len(table)), rng.randrange(len(table))
+        i = rng.randrange(len(table))
+        j = rng.choice([k for k in range(len(table)) if k != i])       # other_0 never shares the Box of agent_0/1
         one = lambda k: box(*table[k])
     elif kind == "discrete":
         i, j = rng.choice([2, 3, 5]), rng.choice([2, 4])
@@ -1530,6 +1627,11 @@ def sweep_one(cfg):
                         infos[aid]["env_defined_actions"] = np.array(vals, dtype=np.float64)
                 envdef[aid] = vals
             tags.append("env-defined")
+        # the environment may list its agents in another order than agent_ids
+        if cfg.get("order"):
+            infos = reorder(infos, cfg["order"])
+            tags.append("infos-reordered")
+        obs = reorder(obs, cfg.get("obs_order"))
         if algo == "IPPO":
             agent.set_training_mode(train)
             try:
@@ -1570,7 +1672,9 @@ def gen_sweep(rng: random.Random, tier: str):
                     cfgs.append({"suite": "sweep", "algo": algo, "kind": kind, "family": fam, "space_seed": space_seed,
                                  "seed": rng.randrange(1 << 30), "B": rng.randint(2, 4), "single": rep % 2 == 1,
                                  "training": rep % 4 < 2, "mask": rng.random() < 0.7, "eps": [0.0, 0.5, 1.0, 1.0][rep % 4],
-                                 "env_defined": rng.random() < 0.4})
+                                 "env_defined": rng.random() < 0.4,
+                                 "order": rand_order(rng, 0.5) if ag.is_multi_agent(algo) else None,
+                                 "obs_order": rand_order(rng, 0.3) if ag.is_multi_agent(algo) else None})
     # user-supplied actor networks whose raw output range exceeds the (asymmetric, per-dimension) Box,
     # training and evaluation mode
     for algo in ("DDPG", "TD3", "MADDPG", "MATD3"):
